@@ -183,12 +183,12 @@ def _():
           classes=PROFILES, deadline=1500)
 def _(self: Ref['mqtt.client.pubsubs.MQTTProtocol'], reason: Any):
     requires(is_obj(self.addr))
-    requires(base_ok(self))
+    requires(any_state(self))
     requires(is_exc(reason) or is_obj(reason))
     tm = as_ref(self._pingReq.timer)
     al = as_ref(self._pingReq.alarm)
     modifies(all_but(KEEP_CONN))
-    ensures(base_ok(self))
+    ensures(any_state(self))
     # idle again; no keepalive activity outlives the connection
     ensures(self.state == self.IDLE and is_none(self._pingReq.timer) and is_none(self._pingReq.alarm))
     ensures(implies(not old(is_none(self._pingReq.timer)), is_bool(tm.lc_running) and not tm.lc_running))
